@@ -22,6 +22,8 @@ def incG (inc : Option Node) (x : Node) : Node :=
 theorem ind_some (i id : Nat) : ind (some i) id = if i = id then 1 else 0 := by
   unfold ind; by_cases h : i = id <;> simp [h]
 
+theorem ind_ne {i id : Nat} (h : i ≠ id) : ind (some i) id = 0 := by rw [ind_some, if_neg h]
+
 theorem upd_inc_fields (i : Nat) (x : Node) :
     (upd i incRc x).id = x.id ∧ (upd i incRc x).key = x.key ∧ (upd i incRc x).removed = x.removed ∧
     (upd i incRc x).refcount = x.refcount + ind (some i) x.id := by
@@ -85,6 +87,8 @@ theorem Inv.move {t : HT} (h : Inv t) (inc dec : Option Node) (its' : List (Nat 
     congr 2
     funext x
     simp [Function.comp, hg]
+  have hft : ∀ l : List Node, l.filter (fun _ => true) = l := fun l =>
+    List.filter_eq_self.2 (by intro a _; rfl)
   cases dec with
   | none =>
     obtain ⟨hb, e1, e2, e3, e4, e5, e6⟩ := ht1 _ rfl
@@ -108,7 +112,7 @@ theorem Inv.move {t : HT} (h : Inv t) (inc dec : Option Node) (its' : List (Nat 
       obtain ⟨x, hx, hxid⟩ := hit p hp id hid
       exact ⟨x, hx, hxid, rfl⟩
     · show (match inc with | some n => t.mapNode n.id incRc | none => t).count = _
-      rw [e4, h.count, List.filter_eq_self.2 (by intro a _; rfl)]
+      rw [e4, h.count, hft]
       exact (hlive (incG inc) fun x => (incG_fields inc x).2.2.1).symm
   | some np =>
     obtain ⟨hnp, hne⟩ := hdec np rfl
@@ -126,7 +130,10 @@ theorem Inv.move {t : HT} (h : Inv t) (inc dec : Option Node) (its' : List (Nat 
         have : ¬ n.id = np.id := hne n rfl
         simp [ind, this]
     have hpknp : parked its' np.id + 1 = parked t.iters np.id := by
-      have := hpk np.id; simp [ind, hindnp] at this; simp only [Option.map] at hindnp; omega
+      have h1 := hpk np.id
+      rw [hindnp] at h1
+      have h2 : ind (Option.map (·.id) (some np)) np.id = 1 := by simp [ind]
+      omega
     have hinj : ∀ x ∈ t.flat, x.id = np.id → x = np := fun x hx e =>
       inj_of_nodup_map (·.id) h.idsNodup hx hnp e
     by_cases hkeep : np.refcount - 1 > 0
@@ -158,7 +165,7 @@ theorem Inv.move {t : HT} (h : Inv t) (inc dec : Option Node) (its' : List (Nat 
           have : ind (some np.id) np.id = 1 := by simp [ind]
           omega
         · have : ind (some np.id) x.id = 0 := by
-            rw [ind_some]; simp [fun e : np.id = x.id => hx' e.symm]
+            exact ind_ne fun e => hx' e.symm
           omega
       · intro x hx _ hr
         show 0 < parked its' x.id
@@ -174,14 +181,14 @@ theorem Inv.move {t : HT} (h : Inv t) (inc dec : Option Node) (its' : List (Nat 
           simp [hr] at hrc
           omega
         · have : ind (some np.id) x.id = 0 := by
-            rw [ind_some]; simp [fun e : np.id = x.id => hx' e.symm]
+            exact ind_ne fun e => hx' e.symm
           omega
       · intro p hp id hid
         obtain ⟨x, hx, hxid⟩ := hit p hp id hid
         exact ⟨x, hx, hxid, rfl⟩
       · show ((match inc with | some n => t.mapNode n.id incRc | none => t).mapNode np.id decRc).count = _
         show (match inc with | some n => t.mapNode n.id incRc | none => t).count = _
-        rw [e4, h.count, List.filter_eq_self.2 (by intro a _; rfl)]
+        rw [e4, h.count, hft]
         exact (hlive _ fun x => (upd_dec_fields _ _).2.2.1.trans (incG_fields inc x).2.2.1).symm
     · -- last reference: the node is destroyed (it had been removed; no iterator is left on it)
       have hrcnp := h.rc np hnp
@@ -192,12 +199,16 @@ theorem Inv.move {t : HT} (h : Inv t) (inc dec : Option Node) (its' : List (Nat 
         | false => unfold base at hrcnp; simp [hr] at hrcnp; omega
       have hpk0 : parked its' np.id = 0 := by
         unfold base at hrcnp; simp [hrem] at hrcnp; omega
-      have hst : (moveState t inc (some np) its').1.buckets =
-          t.buckets.map fun l => (l.map (incG inc)).filter fun x => !(x.id == np.id) := by
-        simp only [moveState, release, if_neg hkeep, HT.nodeDestroy, hb, List.map_map, Function.comp_def]
-      refine h.of_map_filter (incG inc) (fun x => !(x.id == np.id)) hst (e1.trans h.fix14) (e2.trans h.fix15) ?_
-        ?_ ?_ ?_ ?_ ?_ hkeys h0 ?_ ?_ ?_
-      · simp only [moveState, release, if_neg hkeep, HT.nodeDestroy]; exact e3
+      have hms : (moveState t inc (some np) its').1 =
+          { ((match inc with | some n => t.mapNode n.id incRc | none => t).nodeDestroy
+              { np with refcount := np.refcount - 1 }).1 with iters := its' } := by
+        simp only [moveState, release, if_neg hkeep]
+      rw [hms]
+      refine h.of_map_filter (incG inc) (fun x => !(x.id == np.id)) ?_ (e1.trans h.fix14) (e2.trans h.fix15) e3
+        ?_ ?_ ?_ ?_ ?_ hkeys h0 ?_ (e5.trans h.notCrashed) (Nat.le_of_eq e6.symm)
+      · show ((match inc with | some n => t.mapNode n.id incRc | none => t).buckets.map
+          fun (l : List Node) => l.filter fun (x : Node) => !(x.id == np.id)) = _
+        rw [hb, List.map_map]; rfl
       · intro x _; exact ⟨(incG_fields inc x).1, (incG_fields inc x).2.1⟩
       · intro x _ hr; rw [(incG_fields inc x).2.2.1] at hr; exact hr
       · intro x hx hq
@@ -207,7 +218,7 @@ theorem Inv.move {t : HT} (h : Inv t) (inc dec : Option Node) (its' : List (Nat 
         have := hpk x.id
         simp only [Option.map_some] at this
         have : ind (some np.id) x.id = 0 := by
-          rw [ind_some]; simp [fun e : np.id = x.id => hx' e.symm]
+          exact ind_ne fun e => hx' e.symm
         omega
       · intro x hx hq hr
         show 0 < parked its' x.id
@@ -217,7 +228,7 @@ theorem Inv.move {t : HT} (h : Inv t) (inc dec : Option Node) (its' : List (Nat 
         have := hpk x.id
         simp only [Option.map_some] at this
         have : ind (some np.id) x.id = 0 := by
-          rw [ind_some]; simp [fun e : np.id = x.id => hx' e.symm]
+          exact ind_ne fun e => hx' e.symm
         omega
       · intro p hp id hid
         show ∃ x ∈ t.bucketOf p.2.bucket, x.id = id ∧ _
@@ -226,7 +237,7 @@ theorem Inv.move {t : HT} (h : Inv t) (inc dec : Option Node) (its' : List (Nat 
         refine ⟨x, hx, hxid, ?_⟩
         have : id ≠ np.id := fun e => parked_zero hpk0 p hp' (e ▸ hid)
         simp [(incG_fields inc x).1, hxid, this]
-      · simp only [moveState, release, if_neg hkeep, HT.nodeDestroy]
+      · show (match inc with | some n => t.mapNode n.id incRc | none => t).count = _
         rw [e4, h.count]
         unfold live
         rw [List.filter_filter, List.filter_map, List.length_map]
@@ -237,7 +248,5 @@ theorem Inv.move {t : HT} (h : Inv t) (inc dec : Option Node) (its' : List (Nat 
         by_cases hx' : x.id = np.id
         · rw [hinj x hx hx', hrem]; simp
         · simp [hx']
-      · simp only [moveState, release, if_neg hkeep, HT.nodeDestroy]; exact e5.trans h.notCrashed
-      · simp only [moveState, release, if_neg hkeep, HT.nodeDestroy]; exact Nat.le_of_eq e6.symm
 
 end QbVerif.Hashtable
